@@ -1,6 +1,6 @@
 """C18 - DataSet transformations preserve the labelled samples.
 
-ALL operation sequences up to depth D over a 23-operation alphabet on real DataSet objects (initial sets: empty,
+ALL operation sequences up to depth D over a 31-operation alphabet (incl. operations on derived objects: copies and split pieces) on real DataSet objects (initial sets: empty,
 single sample, two samples, ties in min/max with an unlabelled sample, one-dimensional), compared after every step
 with a reference model: the multiset of (sample,label) pairs, the affine bookkeeping since the last overriding
 rescale, and field-by-field propagation of the scaling attributes.  `shuffle` is put under the explorer's control
@@ -39,7 +39,10 @@ INITS = {
 }
 OPS = ["sr01", "sr-12", "sr01_override", "sf2", "sf_neg", "sf_vec", "sf_vec_neg", "shift.5", "shift_vec", "revert", "shuffle_rev", "shuffle_rot", "mbf",
        "split_labels_cat", "split_pieces.5_cat", "split_pieces0_cat", "split_pieces1_cat", "split_nolabel_cat",
-       "rm0", "rm_dup", "rm_oor", "rm_neg", "cat_diff_scaled"]
+       "rm0", "rm_dup", "rm_oor", "rm_neg", "cat_diff_scaled",
+       # an operation applied to an object DERIVED from the data set (copy / a split_labels piece) must leave the data set itself alone
+       "derived_copy_sf2", "derived_copy_sfvec", "derived_copy_revert", "derived_copy_sr", "derived_split_sf2", "derived_split_sfvec",
+       "derived_split_revert", "derived_split_sr"]
 
 
 def _ms(ds):
@@ -210,6 +213,27 @@ def _apply(ds, op, model):
                     issues.append(("out_of_range_removal_leaves_data", "data modified by a rejected removal"))
             else:
                 raise
+    elif op.startswith("derived_"):
+        _, how, act = op.split("_", 2)
+        if n == 0:
+            raise Refusal()
+        o = ds.copy() if how == "copy" else next((p for p in ds.split_labels() if not p.is_empty()), None)
+        if o is None:
+            raise Refusal()
+        if act == "sf2":
+            o.scale_factor(2.0)
+        elif act == "sfvec":
+            o.scale_factor(np.array([2.0, 0.5][:dim]))
+        elif act == "sr":
+            o.scale_range((-1.0, 2.0))
+        else:
+            if not o.is_scaled():
+                raise Refusal()
+            o.revert_scaling()
+        if _ms(ds) != before:
+            issues.append(("derived_object_independent", "%s on a %s changed the samples of the data set: %r -> %r" % (act, how, before, _ms(ds))))
+        if _attrs(ds) != battr:
+            issues.append(("derived_object_independent", "%s on a %s changed the scaling attributes of the data set: %r -> %r" % (act, how, battr, _attrs(ds))))
     elif op == "cat_diff_scaled":
         if n == 0:
             raise Refusal()
@@ -323,7 +347,7 @@ def main(ctx):
     ctx.add_sample({"init": "two", "sequence": ["sr01", "cat_diff_scaled"]})
     ctx.bounds = {"depth": 4 if ctx.tier == "quick" else 5, "alphabet": OPS, "initial_sets": sorted(INITS), "sequences_executed": total}
     return ctx.finish(
-        rule="every operation sequence up to the stated depth over the 23-operation alphabet on 5 initial data sets (one case = all "
+        rule="every operation sequence up to the stated depth over the 31-operation alphabet on 5 initial data sets (one case = all "
              "completions of a prefix; evaluations = executed operations), lock-step with the reference model after every step",
         assumptions=["revert-restores-original is only demanded while no sample was removed since the first scaling (the statement lists "
                      "scalings, shifts and factors 'in between')", "an exception on an EMPTY set counts as refusal of a degenerate input",
